@@ -5,7 +5,8 @@ From IronCalc Require Import Base.Prelude Eval.NumOps Eval.Value Eval.Coerce Eva
   Eval.Eval Eval.Store Eval.StoreProofs Eval.SinkProofs.
 
 (* full strength: whatever result reaches the sink, and whatever text is typed, a store free
-   of non-finite numbers stays so.  FALSE of the faithful model (refutations below). *)
+   of non-finite numbers stays so.  The first conjunct is FALSE of the faithful model (array sinks,
+   refutations below); the second one holds since /repo 6e3cec0 (C08_typed). *)
 Definition C08_statement : Prop :=
   forall num (N : NumOps num), nis_finite N (nzero N) = true ->
   (forall c cell r st st', write N c cell r st = Some st' -> finite_store N st -> finite_store N st') /\
@@ -25,13 +26,12 @@ Theorem C08_partial :
 Proof. exact (@write_finite_partial). Qed.
 Print Assumptions C08_partial.
 
-(* the typed path, excluding exactly the texts the recogniser turns into a non-finite number *)
-Theorem C08_typed_partial :
-  forall num (N : NumOps num) c t st,
-  (forall v, nof_text N t = Some v -> nis_finite N v = true) ->
-  finite_store N st -> finite_store N (type_number N c t st).
-Proof. exact (@type_number_finite_partial). Qed.
-Print Assumptions C08_typed_partial.
+(* the typed path, full strength (since /repo 6e3cec0: parse_number rejects non-finite values; before
+   that this was C08_typed_partial and C08_refuted_typed, finding F08) *)
+Theorem C08_typed :
+  forall num (N : NumOps num) c t st, finite_store N st -> finite_store N (type_number N c t st).
+Proof. exact (@type_number_finite). Qed.
+Print Assumptions C08_typed.
 
 (* F09: ={MAX,1}*10 as a dynamic array formula stores a non-finite number in the anchor *)
 Theorem C08_refuted_array :
@@ -50,12 +50,12 @@ Theorem C08_refuted_coerce_1x1 :
   no_nonfinite_b BOps [A1] (evaluate BOps [A1] wb_1x1) = false.
 Proof. exact refuted_coerce_1x1. Qed.
 Print Assumptions C08_refuted_coerce_1x1.
-(* F08: typing a number whose value overflows *)
-Theorem C08_refuted_typed :
-  no_nonfinite_b BOps [A1] (store_of []) = true /\
-  no_nonfinite_b BOps [A1] (type_number BOps A1 [57;57;57;57;57;57;57] (store_of [])) = false.
-Proof. exact refuted_typed. Qed.
-Print Assumptions C08_refuted_typed.
+(* F08 (fixed): typing a number whose value overflows stores the text, a finite one the number *)
+Example C08_typed_overflow_is_text :
+  cont (type_number BOps A1 [57;57;57;57;57;57;57] (store_of [])) A1 = CString [57;57;57;57;57;57;57] /\
+  no_nonfinite_b BOps [A1] (type_number BOps A1 [57;57;57;57;57;57;57] (store_of [])) = true /\
+  cont (type_number BOps A1 [57;57] (store_of [])) A1 = CNumber (Some 99).
+Proof. exact typed_overflow_is_text. Qed.
 
 (* non-vacuity: the same overflow in scalar form is caught by the safety belt *)
 Example C08_scalar_guard_works : value_at (evaluate BOps [A1] wb_scalar) A1 = VErr ENUM.
